@@ -19,6 +19,6 @@ mkdir -p evidence replays
 rc=$?
 if [ "${1:-}" != "--replay" ] && [ $rc -ne 2 ]; then
   id=$(echo "${name%%_*}" | tr a-z A-Z)
-  python3-vt mc/validate_evidence.py "evidence/${id}.json" || rc=2
+  python3-vt mc/validate_evidence.py "${VERIF_EVIDENCE_DIR:-evidence}/${id}.json" || rc=2
 fi
 exit $rc
